@@ -62,7 +62,14 @@ def run(ctx):
     hs.append(H("MassFunction", 0, [["read", ["dndm"]], ["update", {"hmf_model": 2, "mdef_model": 2, "disable_mass_conversion": 1}], ["read", ["dndm", "ngtm"]],
                                     ["update", {"disable_mass_conversion": 0}], ["read", ["dndm"]], ["update", {"use_splined_growth": 1}], ["read", ["dndm", "growth_factor", "dndlnm"]],
                                     ["update", {"takahashi": 1}], ["read", ["nonlinear_power", "dndm"]]]))
-    NFIXED = 4
+    # a rejected model name for a parameter that has model parameters stored (non-default recalibration parameters; computed before)
+    hs.append(H("MassFunctionWDM", 0, [["update", {"alter_model": 1, "alter_params": 1}], ["read", ["dndm"]], ["update", {"alter_model": 4}], ["read", ["dndm", "ngtm"]],
+                                       ["update", {"hmf_model": 9}], ["read", ["dndm"]], ["update", {"wdm_model": 3}], ["read", ["dndm"]]]))
+    # a failure inside a component that keeps scratch state (ellipsoidal sharp-k filter; a mass grid of three points is too short for it),
+    # corrected through the mass grid only, so that the filter object itself is not rebuilt
+    hs.append(H("MassFunction", 0, [["update", {"filter_model": 2}], ["read", ["dndm"]], ["update", {"filter_model": 5}], ["read", ["sigma", "dndm"]], ["update", {"Mmax": 5, "Mmin": 5}], ["read", ["sigma", "_dlnsdlnm", "dndm"]],
+                                    ["update", {"Mmax": 0, "Mmin": 0}], ["read", ["sigma", "_dlnsdlnm", "dndm", "n_eff"]]]))
+    NFIXED = 6
     for cn in classes:
         for _ in range(per if cn != "Cosmology" else 2):
             hs.append(fault_history(r, cn))
